@@ -1,6 +1,6 @@
 (* C09 -- proofs over Model/C09.v *)
 From Coq Require Import ZArith List Bool Lia ZifyBool.
-From PV Require Import Bytes C09.
+From PV Require Import Bytes C09_gen C09.
 Import ListNotations.
 Open Scope Z_scope.
 Ltac Zify.zify_post_hook ::= Z.to_euclidean_division_equations.
@@ -14,7 +14,7 @@ Ltac dm_hyp H :=
          | context [match ?x with _ => _ end] => destruct x eqn:?
          end.
 
-Ltac unf := unfold handle, handlers, negotiate, parse_newkeys, enforce, set_expected, set_ctl, set_in, set_out in *.
+Ltac unf := unfold handle, handlers, negotiate, parse_newkeys, enforce_at, enforce, set_expected, set_ctl, set_in, set_out in *.
 
 (* ---------------------------------------------------------------------------------------- *)
 (* emit / send1 frame lemmas *)
@@ -69,7 +69,9 @@ Lemma handle_strict_abort c st p s :
   let o := fst (fst (handle c st p s)) in
   o = AbortMOE \/ (p_type p = MSG_DISCONNECT /\ o = Closed).
 Proof.
-  intros Ha Hd He Hm. unfold handle, enforce. rewrite Ha, Hd, Hm. simpl.
+  intros Ha Hd He Hm. unfold handle, enforce_at, enforce. rewrite Ha, Hd, Hm.
+  change (mem MSG_IGNORE g_enforce_sites) with true. change (mem MSG_DEBUG g_enforce_sites) with true.
+  simpl.
   destruct (p_type p =? MSG_IGNORE) eqn:E2; [left; reflexivity|].
   destruct (p_type p =? MSG_DISCONNECT) eqn:E1; [right; split; [lia|reflexivity]|].
   destruct (p_type p =? MSG_DEBUG) eqn:E4; [left; reflexivity|].
@@ -105,14 +107,55 @@ Definition Inv (st : peer) : Prop :=
 
 Lemma kex_start_ok c : forall sends ex, kex_start c = (sends, ex) -> ex <> [] /\ forallb kexmsg ex = true.
 Proof.
-  intros sends ex. unfold kex_start. destruct (c_role c), (c_kex c); intro H; inversion H; subst;
+  intros sends ex. unfold kex_start, fam, is_server.
+  destruct (c_role c), (c_kex c); intro H; cbv in H; inversion H; subst;
     split; try discriminate; reflexivity.
+Qed.
+
+(* every row of the generated parse_next table leaves a non-empty set of expected types, all of them
+   in the generated universe (closed by computation over the generated data) *)
+Definition next_row_ok (r : Z * Z * Z * list Z * list Z * bool) : bool :=
+  match r with (_, _, _, _, ex, act) => act || (negb (is_nil ex) && forallb kexmsg ex) end.
+
+Lemma gen_next_rows_ok : forallb next_row_ok g_kex_next = true.
+Proof. vm_compute. reflexivity. Qed.
+
+Lemma gen_activate_expect_ok : g_activate_expect <> [] /\ forallb kexmsg g_activate_expect = true.
+Proof. split; [discriminate|vm_compute; reflexivity]. Qed.
+
+Lemma find_next_in l f srv t snt ex act :
+  find_next l f srv t = Some (snt, ex, act) ->
+  exists f' role t', In (f', role, t', snt, ex, act) l.
+Proof.
+  induction l as [|[[[[[f' role] t'] snt'] ex'] act'] l IH]; simpl; [discriminate|].
+  destruct ((f' =? f) && (t' =? t) && role_ok role srv).
+  - intro H. inversion H; subst. exists f', role, t'. left. reflexivity.
+  - intro H. destruct (IH H) as (a & b & d & Hin). exists a, b, d. right. exact Hin.
 Qed.
 
 Lemma kex_next_ok c t ok sends ex act :
   kex_next c t ok = Some (sends, ex, act) -> ex <> [] /\ forallb kexmsg ex = true.
 Proof.
-  unfold kex_next. intro H. dm_hyp H; inversion H; subst; split; try discriminate; reflexivity.
+  unfold kex_next. destruct (negb ok); [discriminate|].
+  destruct (find_next g_kex_next (fam c) (is_server c) t) as [[[snt ex0] act0]|] eqn:F; [|discriminate].
+  apply find_next_in in F. destruct F as (f' & role & t' & Hin).
+  pose proof gen_next_rows_ok as R. rewrite forallb_forall in R. specialize (R _ Hin). simpl in R.
+  destruct act0; intro H; inversion H; subst.
+  - apply gen_activate_expect_ok.
+  - simpl in R. apply andb_true_iff in R. destruct R as [N A]. split; auto.
+    destruct ex; [discriminate|discriminate].
+Qed.
+
+(* a type of the generated universe outside run()'s kex range is KEXINIT or NEWKEYS *)
+Lemma universe_outside_range t :
+  kexmsg t = true -> (KEX_LO <=? t) && (t <=? KEX_HI) = false -> t = MSG_KEXINIT \/ t = MSG_NEWKEYS.
+Proof.
+  unfold kexmsg, mem. intros H R. apply existsb_exists in H. destruct H as [x [Hin Hx]].
+  apply Z.eqb_eq in Hx. subst x.
+  assert (A : forallb (fun u => ((KEX_LO <=? u) && (u <=? KEX_HI)) || (u =? MSG_KEXINIT) || (u =? MSG_NEWKEYS))
+                      g_expect_universe = true) by (vm_compute; reflexivity).
+  rewrite forallb_forall in A. specialize (A _ Hin). rewrite R in A. simpl in A.
+  apply orb_true_iff in A. destruct A as [A|A]; apply Z.eqb_eq in A; auto.
 Qed.
 
 Lemma mem_forallb t l f : mem t l = true -> forallb f l = true -> f t = true.
@@ -145,13 +188,12 @@ Proof.
   destruct (mem (p_type p) (expected st)) eqn:Em; simpl in H.
   2:{ destruct (agreed st); inversion H; subst; discriminate. }
   pose proof (mem_forallb _ _ _ Em Hall) as Hk.
-  destruct ((30 <=? p_type p) && (p_type p <=? 41)) eqn:Er.
+  destruct ((KEX_LO <=? p_type p) && (p_type p <=? KEX_HI)) eqn:Er.
   - destruct (kex_next c (p_type p) (p_ok p)) as [[[sd ex] act]|] eqn:Ek.
     + inversion H; subst. simpl. apply kex_next_ok in Ek. destruct Ek. repeat split; auto.
     + inversion H; subst. discriminate.
   - (* t is 20 or 21 *)
-    unfold kexmsg in Hk.
-    assert (p_type p = 20 \/ p_type p = 21) as [T|T] by lia.
+    destruct (universe_outside_range _ Hk Er) as [T|T].
     + unfold handlers in H. rewrite T in H. simpl in H. unfold negotiate in H.
       dm_hyp H; inversion H; subst; try discriminate; simpl;
         match goal with K : kex_start _ = _ |- _ => apply kex_start_ok in K; destruct K end;
@@ -214,7 +256,8 @@ Lemma start_inv c : Inv (fst (start c)).
 Proof.
   unfold start. destruct (emit c peer0 [MSG_KEXINIT]) as [st ps] eqn:E. simpl.
   apply emit_frame in E. destruct E as (_ & F2 & F3 & _ & _ & F6 & F7 & _ & F9).
-  intro K. rewrite F3, F6, F7, F9. simpl. unfold SEQ_MOD. repeat split; try discriminate; try lia.
+  intro K. rewrite F3, F6, F7, F9. simpl. unfold SEQ_MOD.
+  repeat split; try discriminate; try lia; try (vm_compute; reflexivity).
 Qed.
 
 Lemma session_inv mac_ok c ins st outs :
@@ -285,7 +328,7 @@ Proof.
         destruct (agreed st0); inversion H; subst; (split; [discriminate|]);
           intro X; inversion X; subst; cbv in M; discriminate. }
     change (negb true) with false in H. cbv iota in H.
-    change ((30 <=? MSG_KEXINIT) && (MSG_KEXINIT <=? 41)) with false in H. cbv iota in H.
+    change ((KEX_LO <=? MSG_KEXINIT) && (MSG_KEXINIT <=? KEX_HI)) with false in H. cbv iota in H.
     unfold handlers in H. rewrite Ht in H.
     change (MSG_KEXINIT =? MSG_KEXINIT) with true in H. cbv iota in H.
     pose proof (negotiate_not_first c (set_expected st0 []) p (seq_in st)) as N.
@@ -894,7 +937,7 @@ Proof.
   destruct (p_type p =? MSG_DEBUG); [inversion H; subst; auto|].
   destruct (is_nil (expected st)); [eapply handlers_sticky; eauto|].
   destruct (negb (mem (p_type p) (expected st))); [inversion H; subst; auto|].
-  destruct ((30 <=? p_type p) && (p_type p <=? 41)).
+  destruct ((KEX_LO <=? p_type p) && (p_type p <=? KEX_HI)).
   - destruct (kex_next c (p_type p) (p_ok p)) as [[[sd ex] act]|]; inversion H; subst; simpl; auto.
   - eapply handlers_sticky; eauto.
 Qed.
@@ -1000,3 +1043,12 @@ Lemma sticky_needs_honest_marker :
   agreed (snd (fst (handle c st {| p_type := 20; p_ok := true; p_marker := 2; p_epoch := 0; p_mseq := 0 |} 0)))
   = false.
 Proof. vm_compute. reflexivity. Qed.
+
+(* the generated shape facts the model relies on without a table lookup *)
+Lemma gen_shape :
+  g_early_types = [MSG_IGNORE; MSG_DISCONNECT; MSG_DEBUG] /\
+  g_enforce_sites = [MSG_IGNORE; MSG_DEBUG] /\
+  g_run_expect = [MSG_KEXINIT] /\ g_activate_expect = [MSG_NEWKEYS] /\
+  forallb (fun t => negb (kexmsg t)) [MSG_IGNORE; MSG_UNIMPLEMENTED; MSG_DEBUG; MSG_DISCONNECT; MSG_EXT_INFO; 192] = true /\
+  forallb (fun t => (MSG_KEXINIT <=? t) && (t <=? KEX_HI)) g_expect_universe = true.
+Proof. vm_compute. repeat split; reflexivity. Qed.
